@@ -211,16 +211,9 @@ def lockstep(tp, ti, values, d):
                 j = end
             else:
                 n = 1
-                # a negative literal may be written bracketed inline: "b"-(-1)  vs  "b"-$1
-                br = 0
-                if (ti[j].text == "(" and j + 3 < len(ti) and ti[j + 1].text == "-" and ti[j + 2].kind == "NUM" and ti[j + 3].text == ")"
-                        and isinstance(v, (int, float, decimal.Decimal)) and not isinstance(v, bool)):
-                    br = 1
-                    j += 1
                 if ti[j].kind == "OP" and ti[j].text == "-" and j + 1 < len(ti) and ti[j + 1].kind == "NUM":
                     n = 2
                 why = expect_decode(kind_of(v), v, ti[j:j + n], d, "")
-                n += br
                 if why:
                     return "value-mismatch", "placeholder #%d carries %r but the inline SQL shows %r there (%s)" % (
                         k, v, "".join(x.text for x in ti[j:j + n])[:60], why)
